@@ -38,6 +38,8 @@ func kindName(k uint8) string {
 		return "Recv"
 	case col.VerifSpawn:
 		return "Spawn"
+	case col.VerifEnd:
+		return "End"
 	case kStart:
 		return "Start"
 	case kWaitGroup:
@@ -256,6 +258,19 @@ func (s *Sched) park(g *gstate, kind uint8, q tokenQueue) {
 func (s *Sched) hook(kind uint8, q any) {
 	id := goid()
 	s.mu.Lock()
+	if kind == col.VerifEnd {
+		// a helper goroutine of the library reports that it is about to end
+		if g := s.gs[id]; g != nil && !g.ended {
+			g.ended = true
+			s.running--
+		} else if g == nil && s.pending > 0 {
+			s.pending--
+			s.running--
+		}
+		s.cond.Broadcast()
+		s.mu.Unlock()
+		return
+	}
 	g := s.gs[id]
 	if g == nil {
 		if s.pending == 0 {
